@@ -69,6 +69,9 @@ BufrRTMD  *bufr_create_rtmd( int count )
 		}
 
    bm->pos_template = -1;
+#ifdef LIBECBUFR_VERIF
+   bufr_verif_live[BUFR_VK_RTMD]++;
+#endif
 
    return bm;
    }
@@ -194,6 +197,9 @@ void bufr_free_rtmd( BufrRTMD *rtmd )
    rtmd->nb_qualifiers = 0;
 
    free( rtmd );
+#ifdef LIBECBUFR_VERIF
+   bufr_verif_live[BUFR_VK_RTMD]--;
+#endif
    }
 
 /**
